@@ -571,6 +571,7 @@ Proof.
     assert (Hl1 : task_done (note_ext st) = false) by (unfold task_done; rewrite (e_md _ _ _ _ _ _ _ E0); exact Hl).
     pose proof (eff_task_cancel (note_ext st) None Hl1) as E.
     exact (eff_acct _ _ _ _ _ _ _ (eff_trans _ _ _ _ _ _ _ _ _ _ _ _ _ E0 E) ltac:(lia) Ha).
+  - destruct (nth_scope st k) as [sid|]; [|exact Ha]. exact (proj1 (good_scope_cancel st sid Hl) Ha).
 Qed.
 
 Lemma acct_begin_iter : forall st, acct st -> acct (begin_iter st).
